@@ -40,15 +40,15 @@ def generate(rng, tier, shard, nshards):
 
 def selftests(events, rng):
     out = selftest_numeric(events, rng, ops=("prefix", "parse"))
-    cands = [e for e in events if "exc" not in e and e["op"] in ("prefixgrammar", "derivative") and e["out"]["rules"]]
+    from tfm_common import visible_string
+    cands = [e for e in events if "exc" not in e and e["op"] == "prefixgrammar" and visible_string(e["in"], e["sigma"], e["L"])]
+    cands += [e for e in events if "exc" not in e and e["op"] == "derivative" and len(e["pre"]) == 1
+              and visible_string(e["in"], e["sigma"], e["L"] + 1, first=e["pre"][0])]
     rng.shuffle(cands)
-    for e in cands[:6]:
+    for e in cands[:8]:
         c = copy.deepcopy(e)
         c["expect"] = "reject"
-        t = c["sigma"][0]
-        r0 = c["out"]["rules"][0]
-        for _ in range(2):   # a spurious derivation of "t" (twice: visible even under saturation of one copy)
-            c["out"]["rules"].append({"w": r0["w"], "h": c["out"]["S"], "b": [t]})
+        c["out"]["rules"] = []          # the output lost a visibly derivable string / prefix
         out.append(c)
     return out
 
